@@ -176,4 +176,54 @@ func TestVerifC03Table(t *testing.T) {
 		}
 		fmt.Fprintf(w, "end %s\n", cid)
 	}
+	// concurrent writers at the cap: p2p delivers heartbeats from its own goroutines, so several SetHeartbeat calls for one
+	// guardian can be in flight at once. The subscriber of the update channel is slow (it is the node's heartbeat logger).
+	nconc := 6
+	if tier == "thorough" {
+		nconc = 60
+	}
+	for ci := 0; ci < nconc; ci++ {
+		cid := fmt.Sprintf("tblc%d", ci+1)
+		updC := make(chan *gossipv1.Heartbeat)
+		stop := make(chan struct{})
+		go func() {
+			for {
+				select {
+				case <-updC:
+					time.Sleep(500 * time.Microsecond)
+				case <-stop:
+					return
+				}
+			}
+		}()
+		gst := NewGuardianSetState(updC)
+		fmt.Fprintf(w, "reset %s upd=0\n", cid)
+		var a ethcommon.Address
+		r.Read(a[:])
+		before := MaxNodesPerGuardian - 1 - r.Intn(3)
+		for i := 0; i < before; i++ {
+			_ = gst.SetHeartbeat(a, peer.ID(fmt.Sprintf("peer-%02d", i)), &gossipv1.Heartbeat{NodeName: "n", Counter: int64(i), Timestamp: time.Now().Add(time.Hour).UnixNano()})
+		}
+		nw := 3 + r.Intn(6)
+		gate := make(chan struct{})
+		res := make(chan bool, nw)
+		for g := 0; g < nw; g++ {
+			g := g
+			go func() {
+				<-gate
+				err := gst.SetHeartbeat(a, peer.ID(fmt.Sprintf("conc-%02d", g)), &gossipv1.Heartbeat{NodeName: "c", Counter: int64(g), Timestamp: time.Now().Add(time.Hour).UnixNano()})
+				res <- err == nil
+			}()
+		}
+		close(gate)
+		oks := 0
+		for g := 0; g < nw; g++ {
+			if <-res {
+				oks++
+			}
+		}
+		close(stop)
+		fmt.Fprintf(w, "conc %s addr=%s before=%d writers=%d oks=%d tbl=%s\n", cid, hex.EncodeToString(a.Bytes()), before, nw, oks, c03Table(gst))
+		fmt.Fprintf(w, "end %s\n", cid)
+	}
 }
